@@ -197,6 +197,8 @@ func H10_hb() {
 		e.tty.vt.resizeTo(4, 2)
 		e.tty.cb()
 	}
+	// (thorough tier: forced context switches at synchronisation points from here on, job parameter preempt)
+	vsymPreemptWindow(true)
 	switch vsymChoice("app", 8) {
 	case 0:
 		e.s.SetContent(1, 0, 'x', nil, StyleDefault)
@@ -228,6 +230,7 @@ func H10_hb() {
 		vsymRunBlocked()
 	}
 	e.s.Fini()
+	vsymPreemptWindow(false)
 	vsymAssert(e.t.fini && !e.tty.running, "the scenario ran to its end (Fini returned, the tty is stopped)")
 	vsymAssert(e.tty.unlockedWrites == 0, "every write to the terminal after Init is made with the screen lock held (output of concurrent calls cannot interleave with a frame)")
 }
